@@ -14,7 +14,9 @@ Print Assumptions C05_reachable_inv.
 Theorem C05_fresh_ids : forall c s b k body m s1 id,
   Inv s -> step c s (OPut b k body m) = (s1, RPut (Some id)) ->
   (forall b' k' id' v sv, get_object_version s b' k' id' = OObj v sv -> (id' < id)%N) /\
-  exists v sv, get_object_version s1 b k id = OObj v sv /\ vd_body v = body /\ vd_meta v = m /\
+  exists v sv, get_object_version s1 b k id = OObj v sv /\ vd_body v = body /\
+               vd_meta v = carry_meta (fst (ensure_bucket c s b)) b k m /\
+               (forall kv, In kv m -> In kv (vd_meta v)) /\
                vd_null v = false /\ vd_marker v = false.
 Proof. exact put_fresh_id. Qed.
 Print Assumptions C05_fresh_ids.
